@@ -248,6 +248,33 @@ class Gen:
             yield from children(5, "comp", lambda: self.component(1), self.mutations)
 
 
+# ---------------------------------------------------------------------- structural reductions (shrinking of replays)
+
+def reductions(t, path=()):
+    """yields (key, smaller variant of t): a child removed, an optional sub-object cleared, a sub-entity reduced;
+    key names the position, so that the same reduction can be applied to several look-alike trees at once"""
+    k = t[0]
+    lists = {'U': (5,), 'C': (7, 8, 9), 'M': (4, 5)}.get(k, ())
+    opts = {'U': (3,), 'V': (3,), 'R': (3, 4), 'C': (5,)}.get(k, ())
+    for i in lists:
+        xs = t[i]
+        for j in range(len(xs)):
+            yield (path + (i, j, 'rm'), t[:i] + (xs[:j] + xs[j + 1:],) + t[i + 1:])
+    for i in opts:
+        if t[i] is not None:
+            yield (path + (i, 'clear'), t[:i] + (None,) + t[i + 1:])
+    for i in lists:
+        xs = t[i]
+        for j in range(len(xs)):
+            if xs[j][0] != 'D':
+                for key, r in reductions(xs[j], path + (i, j)):
+                    yield (key, t[:i] + (xs[:j] + (r,) + xs[j + 1:],) + t[i + 1:])
+    for i in opts:
+        if t[i] is not None:
+            for key, r in reductions(t[i], path + (i,)):
+                yield (key, t[:i] + (r,) + t[i + 1:])
+
+
 # ---------------------------------------------------------------------- serialisation
 
 def ser(t):
